@@ -72,7 +72,7 @@ func replay(path string) {
 		json.Unmarshal(doc.Witness, &w)
 		data, _ := hex.DecodeString(w.DataHex)
 		want, _ := hex.DecodeString(w.WantHex)
-		j := &drv.XformJob{Spec: drv.Spec{Pkg: w.Pkg, Quirks: w.Quirks, Data: data}, Ample: uint32(w.WantLen + 4096), Trace: true}
+		j := &drv.XformJob{Spec: drv.Spec{Pkg: w.Pkg, Quirks: w.Quirks, Data: data}, Script: drv.Script{DstStep: w.DstStep}, Ample: uint32(w.WantLen + 4096), Trace: true}
 		one(j)
 		for _, t := range j.Out.Trace {
 			fmt.Println("  ", t)
